@@ -129,7 +129,7 @@ def main():
                  "ZIDs already present in files for a date whose counter is missing from next_ids.json"])
     kf_active, _ = known_findings("C05")
     kf_ids = {e["id"] for e in kf_active}
-    T = 120 if tier == "quick" else 480
+    T = 160 if tier == "quick" else 480
     env0 = {"XH_KNOWN": ",".join(sorted(kf_ids))}
     conds = []
     for i in range(len(cm.STRUCTS)):
